@@ -97,6 +97,20 @@ func c08CutRun(c c07Case) Verdict {
 	if bad := sessionInvariants(o.evs, o.r.Leftover); bad != nil {
 		return *bad
 	}
+	// A cut strictly inside a command line: what arrived of that line is not
+	// a command (no CRLF ever came), and the peer is gone - it must not be
+	// executed. Seen from outside: no reply beyond those of the complete
+	// commands (clean half-close only; after a reset replies may be lost).
+	for _, sp := range b.cmdSpans {
+		if c.Cut > sp.start && c.Cut < sp.end {
+			v.NonTrivial = true
+			v.Classes = append(v.Classes, "cut_inside_command_line")
+			if c.Fault == "eof" && o.perr == nil && len(o.replies) > sp.expBefore {
+				return failf("truncated-line-executed", "stream cut at %d, inside the command line %s, of which only %s arrived before the peer disconnected: it was answered all the same (%d replies where the complete commands account for %d; the extra one: %s)",
+					c.Cut, q(b.stream[sp.start:sp.end]), q(b.stream[sp.start:c.Cut]), len(o.replies), sp.expBefore, o.replies[len(o.replies)-1])
+			}
+		}
+	}
 	return v
 }
 
